@@ -36,3 +36,7 @@ class ExpandSolveOrderVisitor(ModelVisitor):
                 self.order_m[self.a] = set()
             self.order_m[self.a].add(f)
         
+
+    def visit_enum_field(self, f):
+        # Enum-typed fields take part in an ordering like any other scalar
+        self.visit_scalar_field(f)
